@@ -311,6 +311,14 @@ def check_c02(case, stats=None):
                 continue                # stopped / deregistered first: discarded
             if W.state_at(m, e) != "R":
                 continue                # PAUSED (or gone) when the loop ended
+            # the loop "ends" when it stops polling and starts its final flush (first observation of the context as
+            # idle inside the run): a module PAUSED at that point has its mail discarded there, also if a handler run
+            # by that very flush resumes it afterwards
+            fstart = next((j for j, f in W.loop_obs if b < j <= e and not f), None)
+            if fstart is not None and W.state_at(m, fstart) != "R":
+                if stats is not None:
+                    stats["resumed_inside_final_flush"] = stats.get("resumed_inside_final_flush", 0) + 1
+                continue
             # the run must have started after or around the send; a message sent while the context was idle is
             # picked up by the next run
             bad("message-lost", "%s payload %d sent by module %d at trace line %d was accepted and module %d was eligible (state %s), stayed active and was RUNNING when the loop run ended at trace line %d, but never received it" % (s.kind, pid, s.sender, s.begin, m, s.state_at_send.get(m), e), W.recs[s.begin])
@@ -557,6 +565,9 @@ def check_c19(case, stats=None):
             # as it is RUNNING again when the run ends (the final flush hands over what is left)
             if W.state_at(m, lo) != "R" or W.left_active_between(m, lo, e) or W.state_at(m, e) != "R":
                 continue
+            fstart = next((j for j, f in W.loop_obs if b < j <= e and not f), None)
+            if fstart is not None and W.state_at(m, fstart) != "R":
+                continue        # PAUSED when the loop stopped polling: its mail is discarded by the final flush
             if _was_paused_between(W, m, lo - 1, e + 1) and stats is not None:
                 stats["required_for_paused_and_resumed_subscriber"] = stats.get("required_for_paused_and_resumed_subscriber", 0) + 1
             key = (m, topic, x if kind in ("started", "stopped") else -1)
